@@ -31,7 +31,8 @@ META = dict(
     note='integer predicates (both preprocessor branches) and exact parallelism of GetSegmentIntersectPt (both precision variants, '
          '|coords| <= 2^25) proved over definitions regenerated from clipper.core.h on every run; PointInPolygon (|coords| <= 2^25, '
          'any polygon not level with the query point) and Area (n*B^2 < 2^51) proved over hand models of the loops that are tied '
-         'to the C++ by exact equality; the accuracy clause of GetSegmentIntersectPt is refuted at 2^40 for both variants '
+         'to the C++ by exact equality; accuracy of GetSegmentIntersectPt for |coords| <= 2^25 proved by binary64 error analysis '
+         '(HI_PRECISION variant: within one unit, literally; default variant: within 1 + 2^-20); the accuracy clause is refuted at 2^40 for both variants '
          '(properly crossing segments reported parallel / results 10^6..10^10 units off) and, read literally, at 2^25 for the '
          'truncating variant (1 + O(2^-47)): known findings; accuracy beyond the proved bounds is validated against the exact '
          'rational crossing, Area beyond the exact regime against the rounding-error bound',
@@ -53,37 +54,46 @@ PIPNAME = {'0': 'on', '1': 'inside', '2': 'outside', 'E': 'model-error'}
 
 
 # ----------------------------------------------------------------------------- running binaries
-def run_robust(binary, lines, timeout=300, env=None):
-    """vf.par_lines, but a shard that crashed / hung is bisected: the offending line answers 'CRASH rc=..'."""
+def run_robust(binary, lines, timeout=150, env=None):
+    """vf.par_lines, but a shard that crashed / hung is bisected: the offending line answers 'CRASH rc=..'
+    (after three such lines the rest of the shard is answered 'CRASH not-run', so a function that hangs on
+    everything costs minutes, not hours)."""
     n = len(lines)
     if n == 0:
         return []
     res = [None] * n
 
-    def solve(idx, tmo):
-        if not idx:
-            return
-        p = vf.run_lines(binary, [lines[i] for i in idx], timeout=tmo, env=env)
-        o = p.stdout.split('\n')
-        if o and o[-1] == '':
-            o = o[:-1]
-        if p.returncode == 0 and len(o) == len(idx):
-            for i, x in zip(idx, o):
+    def solve(idx, tmo, crashes):
+        while idx:
+            if crashes[0] >= 3:
+                for i in idx:
+                    res[i] = 'CRASH not-run'
+                return
+            p = vf.run_lines(binary, [lines[i] for i in idx], timeout=tmo, env=env)
+            o = p.stdout.split('\n')
+            if o and o[-1] == '':
+                o = o[:-1]
+            if p.returncode == 0 and len(o) == len(idx):
+                for i, x in zip(idx, o):
+                    res[i] = x
+                return
+            good = 0 if p.returncode == 0 else min(len(o), len(idx) - 1)
+            for i, x in zip(idx[:good], o[:good]):
                 res[i] = x
-            return
-        if len(idx) == 1:
-            res[idx[0]] = 'CRASH rc=%s %s' % (p.returncode, ' '.join(p.stderr[-300:].split()))
-            return
-        good = 0 if p.returncode == 0 else min(len(o), len(idx) - 1)
-        for i, x in zip(idx[:good], o[:good]):
-            res[i] = x
-        solve(idx[good:good + 1], 20)
-        solve(idx[good + 1:], tmo)
+            one = idx[good]
+            p1 = vf.run_lines(binary, [lines[one]], timeout=20, env=env)
+            o1 = p1.stdout.split('\n')
+            if p1.returncode == 0 and len(o1) >= 1 and o1[0] != '':
+                res[one] = o1[0]
+            else:
+                res[one] = 'CRASH rc=%s %s' % (p1.returncode, ' '.join(p1.stderr[-300:].split()))
+                crashes[0] += 1
+            idx = idx[good + 1:]
 
     chunk = max(1, (n + vf.NPROC - 1) // vf.NPROC)
     shards = [list(range(i, min(n, i + chunk))) for i in range(0, n, chunk)]
     with cf.ThreadPoolExecutor(max_workers=vf.NPROC) as ex:
-        list(ex.map(lambda s: solve(s, timeout), shards))
+        list(ex.map(lambda s: solve(s, timeout, [0]), shards))
     return res
 
 
@@ -141,7 +151,7 @@ class Tools:
         return self.exe.get(variant) is not None and group not in self.excluded.get(variant, ()) and \
             (variant != 'portable' or self.portable_ok)
 
-    def impl(self, variant, lines, timeout=300):
+    def impl(self, variant, lines, timeout=150):
         return run_robust(self.exe[variant], lines, timeout=timeout)
 
     def spec_run(self, lines):
